@@ -20,91 +20,127 @@ Variable E : env.
 Variable C : cfg.
 Variable fault : nat -> bool.
 
-Lemma h_end_fl : forall c h s h' s', h_end fault c h s = (h', s') -> s_fl s' = s_fl s /\ s_txlog s' = TEnd :: s_txlog s.
+(* a Commit / Rollback call never touches the flags; it reaches database/sql (TEnd) unless it is
+   a Commit that the pool's own wrapper failed — and then the handle carries the error *)
+Lemma h_end_fl : forall c h s h' s', h_end C fault c h s = (h', s') ->
+  s_fl s' = s_fl s /\
+  (s_txlog s' = TEnd :: s_txlog s \/ (c = true /\ s_txlog s' = s_txlog s /\ h' <> None)).
 Proof.
-  intros c h s h' s' H. unfold h_end, tx_end, issue in H. cbn [log_tx s_tx s_ops s_db s_gen s_txlog s_fl] in H.
-  destruct (s_tx s); [destruct (fault _); destruct c|]; inversion H; split; reflexivity.
+  intros c h s h' s' H. unfold h_end, tx_end, issue in H.
+  destruct (c && c_soft C) eqn:Ecs.
+  - inversion H; subst. split; [reflexivity|]. right. apply andb_prop in Ecs. destruct Ecs as [Ec _].
+    repeat split; [exact Ec|]. destruct h; discriminate.
+  - cbn [log_tx s_tx s_ops s_db s_gen s_txlog s_fl] in H.
+    destruct (s_tx s); [destruct (fault _); destruct c|]; inversion H; split; try reflexivity; left; reflexivity.
 Qed.
-Lemma run_extra_fl : forall l h s x s', run_extra fault l h s = (x, s') ->
+Lemma run_extra_fl : forall l h s x s', run_extra C fault l h s = (x, s') ->
   s_fl s' = s_fl s /\ exists k, Forall (eq TEnd) k /\ s_txlog s' = k ++ s_txlog s.
 Proof.
   induction l as [|c l IH]; intros h s x s' H; cbn [run_extra] in H.
   - inversion H; subst. split; [reflexivity|]. exists []; split; [constructor | reflexivity].
-  - destruct (h_end fault c h s) as [h1 s1] eqn:Eh. apply h_end_fl in Eh. destruct Eh as [F1 L1].
-    destruct (run_extra fault l h1 s1) as [o s2] eqn:Er. apply IH in Er. destruct Er as [F2 [k [K1 K2]]].
-    inversion H; subst. split; [congruence|]. exists (k ++ [TEnd]). split.
-    + apply Forall_app; split; [exact K1 | repeat constructor].
-    + rewrite K2, L1, <- app_assoc; reflexivity.
+  - destruct (h_end C fault c h s) as [h1 s1] eqn:Eh. apply h_end_fl in Eh. destruct Eh as [F1 L1].
+    destruct (run_extra C fault l h1 s1) as [o s2] eqn:Er. apply IH in Er. destruct Er as [F2 [k [K1 K2]]].
+    inversion H; subst. split; [congruence|].
+    destruct L1 as [L1 | [_ [L1 _]]].
+    + exists (k ++ [TEnd]). split.
+      * apply Forall_app; split; [exact K1 | repeat constructor].
+      * rewrite K2, L1, <- app_assoc; reflexivity.
+    + exists k. split; [exact K1 | rewrite K2, L1; reflexivity].
 Qed.
 
+Lemma tend_app : forall k (l : list txcall), Forall (eq TEnd) k -> Forall (eq TEnd) (k ++ [TEnd]) /\ k ++ [TEnd] <> [].
+Proof. intros k l K. split; [apply Forall_app; split; [exact K | repeat constructor] | destruct k; discriminate]. Qed.
+
 Lemma finish_fl : forall manual extra r l h s2 o x s,
-  finish fault manual extra r l h s2 = (o, x, s) ->
+  finish C fault manual extra r l h s2 = (o, x, s) ->
   s_fl s = s_fl s2 /\ exists k, Forall (eq TEnd) k /\ k <> [] /\ s_txlog s = k ++ s_txlog s2.
 Proof.
   intros manual extra r l h s2 o x s H. unfold finish in H.
   destruct r.
-  - destruct (h_end fault true h s2) as [h2 s3] eqn:Eh. apply h_end_fl in Eh. destruct Eh as [F1 L1].
+  - destruct (h_end C fault true h s2) as [h2 s3] eqn:Eh. apply h_end_fl in Eh. destruct Eh as [F1 L1].
     destruct h2 as [e|].
-    + destruct manual.
-      * destruct (run_extra fault extra (Some e) s3) as [x' s4] eqn:Er. apply run_extra_fl in Er.
-        destruct Er as [F2 [k [K1 K2]]]. inversion H; subst. split; [congruence|].
-        exists (k ++ [TEnd]). repeat split.
+    + destruct (h_end C fault false (Some e) s3) as [h4 s4] eqn:Eh2. apply h_end_fl in Eh2. destruct Eh2 as [F2 L2].
+      destruct L2 as [L2 | [K _]]; [|discriminate].
+      destruct (run_extra C fault (if manual then extra else []) h4 s4) as [x' s5] eqn:Er. apply run_extra_fl in Er.
+      destruct Er as [F3 [k [K1 K2]]]. inversion H; subst. split; [congruence|].
+      destruct L1 as [L1 | [_ [L1 _]]].
+      * exists (k ++ [TEnd; TEnd]). repeat split.
         -- apply Forall_app; split; [exact K1 | repeat constructor].
         -- destruct k; discriminate.
-        -- rewrite K2, L1, <- app_assoc; reflexivity.
-      * destruct (h_end fault false (Some e) s3) as [h4 s4] eqn:Eh2. apply h_end_fl in Eh2. destruct Eh2 as [F2 L2].
-        inversion H; subst. split; [congruence|]. exists [TEnd; TEnd]. repeat split.
-        -- repeat constructor.
-        -- discriminate.
-        -- rewrite L2, L1; reflexivity.
-    + destruct (run_extra fault (if manual then extra else []) None s3) as [x' s4] eqn:Er. apply run_extra_fl in Er.
+        -- rewrite K2, L2, L1, <- app_assoc; reflexivity.
+      * exists (k ++ [TEnd]). destruct (tend_app k [] K1) as [T1 T2]. repeat split; [exact T1 | exact T2 |].
+        rewrite K2, L2, L1, <- app_assoc; reflexivity.
+    + destruct L1 as [L1 | [_ [_ K]]]; [|contradiction K; reflexivity].
+      destruct (run_extra C fault (if manual then extra else []) None s3) as [x' s4] eqn:Er. apply run_extra_fl in Er.
       destruct Er as [F2 [k [K1 K2]]]. inversion H; subst. split; [congruence|].
-      exists (k ++ [TEnd]). repeat split.
-      -- apply Forall_app; split; [exact K1 | repeat constructor].
-      -- destruct k; discriminate.
-      -- rewrite K2, L1, <- app_assoc; reflexivity.
-  - destruct (h_end fault false h s2) as [h2 s3] eqn:Eh. apply h_end_fl in Eh. destruct Eh as [F1 L1].
-    destruct (run_extra fault (if manual then extra else []) h2 s3) as [x' s4] eqn:Er. apply run_extra_fl in Er.
+      exists (k ++ [TEnd]). destruct (tend_app k [] K1) as [T1 T2]. repeat split; [exact T1 | exact T2 |].
+      rewrite K2, L1, <- app_assoc; reflexivity.
+  - destruct (h_end C fault false h s2) as [h2 s3] eqn:Eh. apply h_end_fl in Eh. destruct Eh as [F1 L1].
+    destruct L1 as [L1 | [K _]]; [|discriminate].
+    destruct (run_extra C fault (if manual then extra else []) h2 s3) as [x' s4] eqn:Er. apply run_extra_fl in Er.
     destruct Er as [F2 [k [K1 K2]]]. inversion H; subst. split; [congruence|].
-    exists (k ++ [TEnd]). repeat split.
-    -- apply Forall_app; split; [exact K1 | repeat constructor].
-    -- destruct k; discriminate.
-    -- rewrite K2, L1, <- app_assoc; reflexivity.
-  - destruct (h_end fault false h s2) as [h2 s3] eqn:Eh. apply h_end_fl in Eh. destruct Eh as [F1 L1].
+    exists (k ++ [TEnd]). destruct (tend_app k [] K1) as [T1 T2]. repeat split; [exact T1 | exact T2 |].
+    rewrite K2, L1, <- app_assoc; reflexivity.
+  - destruct (h_end C fault false h s2) as [h2 s3] eqn:Eh. apply h_end_fl in Eh. destruct Eh as [F1 L1].
+    destruct L1 as [L1 | [K _]]; [|discriminate].
     inversion H; subst. split; [congruence|]. exists [TEnd]. repeat split; [repeat constructor | discriminate | exact L1].
+Qed.
+
+Hypothesis hard_commit : c_soft C = false.
+
+(* a Commit issued on the finished transaction reports an error *)
+Lemma run_extra_commits : forall l h s x s', s_tx s = None -> run_extra C fault l h s = (x, s') ->
+  extras_ok l x = true.
+Proof.
+  induction l as [|c l IH]; intros h s x s' Htx H; cbn [run_extra] in H; [inversion H; reflexivity|].
+  rewrite (h_end_closed C fault hard_commit c h s Htx) in H.
+  destruct (run_extra C fault l (add_error h (Some (mkErr ETxDone false))) (log_tx s TEnd)) as [o s2] eqn:Er.
+  inversion H; subst. cbn [extras_ok]. rewrite (IH _ _ _ _ (Htx : s_tx (log_tx s TEnd) = None) Er), andb_true_r.
+  destruct h; cbn; apply orb_true_r.
+Qed.
+Lemma run_extra_commits' : forall (manual : bool) extra h s x s', s_tx s = None ->
+  run_extra C fault (if manual then extra else []) h s = (x, s') -> extras_ok extra x = true.
+Proof.
+  intros [|] extra h s x s' Htx H; [eapply run_extra_commits; eassumption|].
+  cbn [run_extra] in H. inversion H; subst. destruct extra; reflexivity.
 Qed.
 
 (* the end of the run when the transaction is still open after the block function *)
 Lemma finish_open : forall manual extra r l h s2 o x s t' stk,
-  finish fault manual extra r l h s2 = (o, x, s) -> s_tx s2 = Some (mkTx t' stk) ->
+  finish C fault manual extra r l h s2 = (o, x, s) -> s_tx s2 = Some (mkTx t' stk) ->
   let fc := fault (length (s_ops s2)) in
   s_db s = (if is_ok r && negb fc then t' else s_db s2)
   /\ s_ops s = ((if is_ok r then KCommit else KRollback), fc) :: s_ops s2
   /\ o = OC true l (cls_of r)
-          (if is_ok r then cls_oe (add_error h (if fc then Some fault_err else None)) else cls_of r).
+          (if is_ok r then cls_oe (add_error h (if fc then Some fault_err else None)) else cls_of r)
+  /\ s_tx s = None /\ extras_ok extra x = true.
 Proof.
   intros manual extra r l h s2 o x s t' stk H Htx fc. unfold finish in H.
   destruct r; cbn [is_ok cls_of andb].
-  - rewrite (h_end_open fault true h s2 _ Htx) in H. fold fc in H. cbn [andb work] in H.
-    set (s3 := mkSt (if negb fc then t' else s_db s2) None ((KCommit, fc) :: s_ops s2) (s_gen s2) (TEnd :: s_txlog s2) (s_fl s2)) in *.
+  - rewrite (h_end_open C fault hard_commit true h s2 _ Htx) in H. fold fc in H. cbn [andb work] in H.
+    set (s3 := mkSt (if negb fc then t' else s_db s2) None ((KCommit, fc) :: s_ops s2) (s_gen s2) (TEnd :: s_txlog s2) (s_fl s2) (s_dead s2)) in *.
     assert (Hc : s_tx s3 = None) by reflexivity.
     destruct (add_error h (if fc then Some fault_err else None)) as [e|] eqn:Ea.
-    + destruct manual.
-      * destruct (run_extra fault extra (Some e) s3) as [x' s4] eqn:Er.
-        destruct (run_extra_closed fault _ _ _ _ _ Hc Er) as (A1 & A2 & _). inversion H; subst.
-        rewrite A1, A2. repeat split; reflexivity.
-      * rewrite (h_end_closed fault false (Some e) s3 Hc) in H. inversion H; subst. repeat split; reflexivity.
-    + destruct (run_extra fault (if manual then extra else []) None s3) as [x' s4] eqn:Er.
-      destruct (run_extra_closed fault _ _ _ _ _ Hc Er) as (A1 & A2 & _). inversion H; subst.
-      rewrite A1, A2. repeat split; reflexivity.
-  - rewrite (h_end_open fault false h s2 _ Htx) in H. fold fc in H. cbn [andb] in H.
-    match type of H with context [run_extra fault _ ?hh ?ss] => set (h2 := hh) in *; set (s3 := ss) in * end.
+    + rewrite (h_end_closed C fault hard_commit false (Some e) s3 Hc) in H.
+      match type of H with context [run_extra C fault _ ?hh ?ss] => set (h3 := hh) in *; set (s4 := ss) in * end.
+      assert (Hc4 : s_tx s4 = None) by reflexivity.
+      destruct (run_extra C fault (if manual then extra else []) h3 s4) as [x' s5] eqn:Er.
+      destruct (run_extra_closed C fault hard_commit _ _ _ _ _ Hc4 Er) as (A1 & A2 & _ & A4 & _).
+      pose proof (run_extra_commits' _ _ _ _ _ _ Hc4 Er) as Hx. inversion H; subst.
+      rewrite A1, A2. repeat split; try reflexivity; assumption.
+    + destruct (run_extra C fault (if manual then extra else []) None s3) as [x' s4] eqn:Er.
+      destruct (run_extra_closed C fault hard_commit _ _ _ _ _ Hc Er) as (A1 & A2 & _ & A4 & _).
+      pose proof (run_extra_commits' _ _ _ _ _ _ Hc Er) as Hx. inversion H; subst.
+      rewrite A1, A2. repeat split; try reflexivity; assumption.
+  - rewrite (h_end_open C fault hard_commit false h s2 _ Htx) in H. fold fc in H. cbn [andb] in H.
+    match type of H with context [run_extra C fault _ ?hh ?ss] => set (h2 := hh) in *; set (s3 := ss) in * end.
     assert (Hc : s_tx s3 = None) by reflexivity.
-    destruct (run_extra fault (if manual then extra else []) h2 s3) as [x' s4] eqn:Er.
-    destruct (run_extra_closed fault _ _ _ _ _ Hc Er) as (A1 & A2 & _). inversion H; subst.
-    rewrite A1, A2. repeat split; reflexivity.
-  - rewrite (h_end_open fault false h s2 _ Htx) in H. fold fc in H. cbn [andb] in H.
-    inversion H; subst. repeat split; reflexivity.
+    destruct (run_extra C fault (if manual then extra else []) h2 s3) as [x' s4] eqn:Er.
+    destruct (run_extra_closed C fault hard_commit _ _ _ _ _ Hc Er) as (A1 & A2 & _ & A4 & _).
+    pose proof (run_extra_commits' _ _ _ _ _ _ Hc Er) as Hx. inversion H; subst.
+    rewrite A1, A2. repeat split; try reflexivity; assumption.
+  - rewrite (h_end_open C fault hard_commit false h s2 _ Htx) in H. fold fc in H. cbn [andb] in H.
+    inversion H; subst. repeat split; try reflexivity. destruct extra; reflexivity.
 Qed.
 
 (* every run ends with every begun transaction finished: one TBegin, then at least one TEnd *)
@@ -137,6 +173,7 @@ Hypothesis savepoint_pushes : forall n t, sq_save E n t = ref_save n t.
 Hypothesis rollback_to_exact : forall n t, sq_rbto E n t = ref_rbto n t.
 Variable C : cfg.
 Hypothesis savepoints : c_nosp C = false.
+Hypothesis hard_commit : c_soft C = false.
 Variable fault : nat -> bool.
 
 Lemma stmt_errs_top : forall e l x r, stmt_errs (OC e l x r) = stmt_errs_l l.
@@ -144,28 +181,38 @@ Proof. reflexivity. Qed.
 Lemma save_errs_top : forall e l x r, save_errs (OC e l x r) = save_errs_l l.
 Proof. reflexivity. Qed.
 
+Lemma run_extra_failed_ok : forall l h, h <> None -> extras_ok l (run_extra_failed C l h) = true.
+Proof.
+  induction l as [|c l IH]; intros h Hh; cbn [run_extra_failed extras_ok]; [reflexivity|].
+  assert (Hn : (if c || c_prep C || c_wrap C then add_error h (Some (mkErr EInvalidTx false)) else h) <> None).
+  { destruct (c || c_prep C || c_wrap C); [destruct h; discriminate | exact Hh]. }
+  rewrite (IH _ Hn), andb_true_r.
+  destruct (if c || c_prep C || c_wrap C then add_error h (Some (mkErr EInvalidTx false)) else h); [apply orb_true_r | contradiction Hn; reflexivity].
+Qed.
+
 Theorem top_spec : forall manual p extra db0 o x s,
   run_top E C fault manual p extra (init_st db0) = (o, x, s) ->
-  scoped [] p = true -> x_rb (s_fl s) = false -> x_drop (s_fl s) = false ->
+  scoped [] p = true -> no_cancel p = true -> x_rb (s_fl s) = false -> x_drop (s_fl s) = false ->
   s_db s = spec_final (negb (c_nonest C)) o (rev (s_ops s)) db0
-  /\ top_ok o (rev (s_ops s)) = true /\ usable o (rev (s_ops s)) = true.
+  /\ top_ok o (rev (s_ops s)) = true /\ usable o (rev (s_ops s)) = true /\ extras_ok extra x = true.
 Proof.
-  intros manual p extra db0 o x s H Hsc Hrb Hdr. unfold run_top, issue in H.
-  cbn [init_st s_ops length s_db s_tx s_gen s_txlog s_fl] in H.
+  intros manual p extra db0 o x s H Hsc Hnc Hrb Hdr. unfold run_top, issue in H.
+  cbn [init_st s_ops length s_db s_tx s_gen s_txlog s_fl s_dead] in H.
   destruct (fault 0%nat) eqn:F0.
   - (* BEGIN failed *)
-    inversion H; subst. cbn. split; [reflexivity|]. split; reflexivity.
+    inversion H; subst. split; [reflexivity|]. split; [reflexivity|]. split; [reflexivity|].
+    destruct manual; [apply run_extra_failed_ok; discriminate | destruct extra; reflexivity].
   - match type of H with context [run_body E C fault p None ?ss] => set (s1 := ss) in * end.
     destruct (run_body E C fault p None s1) as [[[r l] h] s2] eqn:Eb.
-    destruct (finish_fl _ _ _ _ _ _ _ _ _ _ H) as [Hfl _].
+    destruct (finish_fl _ _ _ _ _ _ _ _ _ _ _ H) as [Hfl _].
     rewrite Hfl in Hrb, Hdr.
     assert (Htx1 : s_tx s1 = Some (mkTx db0 ([] ++ []))) by reflexivity.
     assert (Hg1 : gen_ok (s_gen s1) ([] ++ [])) by (intros k t []).
     destruct (body_inv E savepoint_pushes rollback_to_exact C savepoints fault p [] None s1 r l h s2 db0 [] []
-                Eb Htx1 (sub_nil _) Hsc Hg1 Hrb Hdr) as [t' [local' HI]].
+                Eb eq_refl Hnc Htx1 (sub_nil _) Hsc Hg1 Hrb Hdr) as [t' [local' HI]].
     destruct HI as (A1 & A2 & A3 & A4 & A5 & A6 & A7 & A8 & A9 & nops & B1 & B2 & B3).
     cbn [app fu] in A2.
-    destruct (finish_open _ _ _ _ _ _ _ _ _ _ _ _ H A1) as (D1 & D2 & D3). cbv zeta in *.
+    destruct (finish_open C fault hard_commit _ _ _ _ _ _ _ _ _ _ _ H A1) as (D1 & D2 & D3 & D4 & D5). cbv zeta in *.
     assert (Hops : s_ops s = (if is_ok r then KCommit else KRollback, fault (length (s_ops s2))) :: nops ++ [(KBegin, false)]).
     { rewrite D2, B1. subst s1; reflexivity. }
     assert (Hdb0 : s_db s2 = db0) by (rewrite A6; subst s1; reflexivity).
@@ -181,21 +228,22 @@ Proof.
       * unfold top_ok. rewrite (commit_ok_final _ _ _ B2), A8, andb_true_r.
         destruct r; cbn [is_ok cls_of is_nil opkind_eqb andb]; try apply cls_eqb_refl.
         rewrite (P1 eq_refl). destruct fc; reflexivity.
-      * unfold usable, errs_explained. rewrite stmt_errs_top, save_errs_top.
+      * split; [|exact D5].
+        unfold usable, errs_explained. rewrite stmt_errs_top, save_errs_top.
         rewrite (all_fault_forallb _ P2), (all_fault_forallb _ P4). cbn [andb].
         apply andb_true_intro; split; apply Nat.leb_le; (eapply Nat.le_trans; [|apply countf_final]); assumption.
 Qed.
 
 Lemma top_atomic : forall manual p extra db0 o x s,
   run_top E C fault manual p extra (init_st db0) = (o, x, s) ->
-  scoped [] p = true -> x_rb (s_fl s) = false -> x_drop (s_fl s) = false ->
+  scoped [] p = true -> no_cancel p = true -> x_rb (s_fl s) = false -> x_drop (s_fl s) = false ->
   s_db s = spec_final (negb (c_nonest C)) o (rev (s_ops s)) db0.
-Proof. intros manual p extra db0 o x s H Hs Hr Hd. exact (proj1 (top_spec _ _ _ _ _ _ _ H Hs Hr Hd)). Qed.
+Proof. intros manual p extra db0 o x s H Hs Hn Hr Hd. exact (proj1 (top_spec _ _ _ _ _ _ _ H Hs Hn Hr Hd)). Qed.
 
 Lemma top_result : forall manual p extra db0 o x s,
   run_top E C fault manual p extra (init_st db0) = (o, x, s) ->
-  scoped [] p = true -> x_rb (s_fl s) = false -> x_drop (s_fl s) = false ->
-  top_ok o (rev (s_ops s)) = true /\ usable o (rev (s_ops s)) = true.
-Proof. intros manual p extra db0 o x s H Hs Hr Hd. exact (proj2 (top_spec _ _ _ _ _ _ _ H Hs Hr Hd)). Qed.
+  scoped [] p = true -> no_cancel p = true -> x_rb (s_fl s) = false -> x_drop (s_fl s) = false ->
+  top_ok o (rev (s_ops s)) = true /\ usable o (rev (s_ops s)) = true /\ extras_ok extra x = true.
+Proof. intros manual p extra db0 o x s H Hs Hn Hr Hd. exact (proj2 (top_spec _ _ _ _ _ _ _ H Hs Hn Hr Hd)). Qed.
 
 End TopSpec.
